@@ -145,11 +145,24 @@ def correspond(ctx):
 
 
 # ---------------------------------------------------------------------------------------------------
-def t_stepper_shapes(cls, D, N):
-    """every malformed shape raises ValueError; the well-formed one is accepted and returns the same shape"""
+def t_order_rejected(cls, D, order):
+    """the ETDRK order must be one of 0..4: everything else (negative orders included) is rejected at construction"""
     ex, jnp = _ex()
-    s = registry.make(cls, D, N)
+    r = raises(lambda: registry.make(cls, D, 8, order=order), exc=(ValueError, NotImplementedError))
+    ok = (r is True) if order not in (0, 1, 2, 3, 4) else (r is False)
+    return ok, f"{cls}(D={D}, order={order}): {'rejected' if r is True else 'accepted' if r is False else r}"
+
+
+def t_stepper_shapes(cls, D, N, opts=None):
+    """every malformed shape raises ValueError; the well-formed one is accepted and returns the same shape; opts: non-default boolean flags
+    (a single-channel flag changes the expected number of channels: 1 instead of D)"""
+    ex, jnp = _ex()
+    s = registry.make(cls, D, N, **dict(opts or {}))
     C = s.num_channels
+    if (opts or {}).get("single_channel") and C != 1:
+        return False, f"{cls}(single_channel=True) in D={D} expects {C} channels, documented: 1"
+    if "single_channel" in (opts or {}) and not opts["single_channel"] and cls != "KuramotoSivashinskyConservative" and C != D:
+        return False, f"{cls}(single_channel=False) in D={D} expects {C} channels, documented: {D}"
     good = (C,) + (N,) * D
     out = s(jnp.ones(good) * 0.1)
     if out.shape != good:
@@ -248,7 +261,7 @@ def t_convection_channels(D, N, conservative):
     return good.shape == (D,) + shape_hat, f"well-shaped input returned {good.shape}"
 
 
-TESTS = dict(convection_channels=t_convection_channels, generator_options=t_generator_options, stepper_shapes=t_stepper_shapes, poisson_shapes=t_poisson_shapes, dimension=t_dimension, nonlin_dimension=t_nonlin_dimension)
+TESTS = dict(order_rejected=t_order_rejected, convection_channels=t_convection_channels, generator_options=t_generator_options, stepper_shapes=t_stepper_shapes, poisson_shapes=t_poisson_shapes, dimension=t_dimension, nonlin_dimension=t_nonlin_dimension)
 
 
 def witness(ctx):
@@ -270,6 +283,17 @@ def witness(ctx):
     for D in (2, 3):
         for cons in (False, True):
             ctx.check("convection_channels", dict(D=D, N=6, conservative=cons))
+    for name in names:
+        for opts in registry.flag_variants(name):
+            if "single_channel" in opts:
+                for D in ((2,) if not ctx.deep else (2, 3)):
+                    if D in registry.dims(name):
+                        ctx.check("stepper_shapes", dict(cls=name, D=D, N=6, opts=opts))
+    for j, name in enumerate([n for n in names if registry.has_order(n) and n != "DifficultyLinearStepperSimple"]):      # (there `order` is the derivative order)
+        if ctx.deep or (j + ctx.seed) % 5 == 0 or name in ("Burgers", "KuramotoSivashinsky"):
+            for order in (-1, -2, -3, -4, 5, 7):
+                ctx.check("order_rejected", dict(cls=name, D=registry.dims(name)[0], order=order))
+            ctx.check("order_rejected", dict(cls=name, D=registry.dims(name)[0], order=3))
     for D in (1, 2, 3):
         ctx.check("poisson_shapes", dict(D=D, N=6))
         for which in ("VorticityConvection2d", "VorticityConvection2dKolmogorov", "ProjectedConvection3d", "ProjectedConvection3dKolmogorov"):
